@@ -128,6 +128,16 @@ def run(ctx):
             ctx.violation("property_fails", f"unthinned BFS-mode walk gives layer sizes {gw}, the true growth function is {[len(l) for l in layers0]}",
                           {"engine": "walk_bfs", "graph": gd, "config": cfgd}, True)
         ctx.count("walk_bfs_cases")
+        # ... and from an explicitly given start state that is not the central one (growth function seen from that state)
+        vs = sorted(dist0)
+        s0 = list(rng.choice(vs))
+        lay_s, _ = G.ref_bfs(gd, [s0])
+        x, y = graph.random_walks(width=max(len(l) for l in lay_s) + 1, length=len(lay_s) + 1, mode="bfs", start_state=s0)
+        gw = [int(v) for v in torch.bincount(y.to(torch.int64)).tolist()]
+        if gw != [len(l) for l in lay_s]:
+            ctx.violation("property_fails", f"unthinned BFS-mode walk from the start state {s0} gives layer sizes {gw}, the true growth function from there is {[len(l) for l in lay_s]}",
+                          {"engine": "walk_bfs", "graph": gd, "config": cfgd, "start": s0}, True)
+        ctx.count("walk_bfs_explicit_start_cases")
     ctx.sample(case)
 
     # ---------------- bit-mask engine: rank/unrank components vs model, whole engine vs main BFS and closed-form growth ----------------
